@@ -55,18 +55,12 @@ class Router:
             if isinstance(message, EnableBLOB):
                 self.process_enable_blob(message, sender)
 
-            # a handler may (un)register devices or clients while the message
-            # is delivered: walk a snapshot, skip what has gone meanwhile
-            for device in list(self.devices):
-                if device not in self.devices:
-                    continue
+            for device in self._each_registered(self.devices):
                 if not device == sender and device.accepts(message.device):
                     device.message_from_client(message)
 
         if message.from_device:
-            for client in list(self.clients):
-                if client not in self.clients:
-                    continue
+            for client in self._each_registered(self.clients):
                 if not client == sender:
                     device_name = getattr(message, "device")
                     client_blob_policy = self.blob_routing.get(client, {}).get(
@@ -88,6 +82,26 @@ class Router:
                         )
                     ):
                         client.message_from_device(message)
+
+    @staticmethod
+    def _each_registered(table):
+        """Yields the entries of a registration table in order, one delivery
+        per registration, also while the handlers being served add or remove
+        entries: what has been removed is not served any more, what has been
+        added is served in its turn, nothing is skipped or served again."""
+        served = []
+        while True:
+            remaining = list(table)
+            for entry in served:
+                index = next(
+                    (i for i, e in enumerate(remaining) if e is entry), None
+                )
+                if index is not None:
+                    del remaining[index]
+            if not remaining:
+                return
+            served.append(remaining[0])
+            yield remaining[0]
 
     def process_enable_blob(self, message: EnableBLOB, sender: SenderType):
         if sender in self.blob_routing:
